@@ -10,41 +10,40 @@ Section Goawk.
   Variable find : bytes -> option (Z * Z).
   Hypothesis find_bounds : forall d s e, find d = Some (s, e) -> 0 <= s /\ s <= e /\ e <= zlen d.
 
-  Lemma goawk_split_stable rs : rs <> [] ->
+  Lemma goawk_split_stable rs :
     (rs_is_regex rs = true -> match_final find) ->
     stable unit record (goawk_split rs find).
   Proof.
-    intros Hne Hre. unfold goawk_split, new_scanner_raw.
+    intros Hre. unfold goawk_split, new_scanner_raw.
     destruct (bytes_eqb rs [10]) eqn:E.
     - apply bytes_eqb_eq in E. subst rs. exact lines_stable.
-    - destruct rs as [|c [|c2 rs]]; [congruence| |].
+    - destruct rs as [|c [|c2 rs]].
+      + exact blank_full_stable.
       + exact (byte_stable c).
       + apply regex_stable; [exact find_bounds|]. apply Hre.
         unfold rs_is_regex. rewrite E. cbn [negb andb]. rewrite !zlen_cons.
         pose proof (zlen_nonneg rs). apply Z.leb_le. lia.
   Qed.
 
-  (* RS <> "": records AND RT are independent of the delivery *)
-  Theorem goawk_chunk_independence rs : rs <> [] ->
+  (* every RS: records AND RT are independent of the delivery (a regex RS needs match_final) *)
+  Theorem goawk_chunk_independence rs :
     (rs_is_regex rs = true -> match_final find) ->
     forall last_eof chunks, reader_ok last_eof O chunks ->
     scan unit record (goawk_split rs find) last_eof tt chunks
     = scan unit record (goawk_split rs find) false tt [concat chunks].
   Proof.
-    intros Hne Hre last_eof chunks Hr.
+    intros Hre last_eof chunks Hr.
     apply chunk_independence; [apply goawk_split_stable; assumption|exact Hr].
   Qed.
 
-  (* RS = "": the records ($0, NR) are independent of the delivery *)
-  Theorem goawk_blank_records_chunk_independent :
+  (* RS = "": ($0, RT) and NR are independent of the delivery, unconditionally *)
+  Theorem goawk_blank_chunk_independent :
     forall last_eof chunks, reader_ok last_eof O chunks ->
-    map_r record bytes fst (scan unit record (goawk_split [] find) last_eof tt chunks)
-    = map_r record bytes fst (scan unit record (goawk_split [] find) false tt [concat chunks]).
+    scan unit record (goawk_split [] find) last_eof tt chunks
+    = scan unit record (goawk_split [] find) false tt [concat chunks].
   Proof.
-    intros last_eof chunks Hr.
-    rewrite <- !(scan_map unit record bytes fst (goawk_split [] find) blank_rec
-                  (to_split_rec_map [] blank_scan)).
-    apply chunk_independence; [exact blank_rec_stable|exact Hr].
+    intros last_eof chunks Hr. apply goawk_chunk_independence; [|exact Hr].
+    unfold rs_is_regex. cbn. discriminate.
   Qed.
 
   (* every split function of goawk: never panics, advances within the data, never delivers a
